@@ -35,7 +35,7 @@ class C02(PipelineCheck):
             hi = 5 if tier == 'quick' else 9
             return {'op': 'roll', 'window': rng.randint(1, hi), 'stride': rng.randint(1, hi), 'inner': inner}
         if kind == 'split':
-            return {'op': 'split', 'key': rng.choice(['rv_mod3', 'rn_div3', 'rv_div2big', 'rv_tup']), 'inner': inner}
+            return {'op': 'split', 'key': rng.choice(['rv_mod3', 'rn_div3', 'rv_div2big', 'rv_tup', 'rv_np', 'rv_nan', 'rv_nan_fresh']), 'inner': inner}
         closing = rng.random() < 0.5
         return {'op': 'time_split', 'active': rng.choice([None, 3, 5]), 'inactive': rng.choice([None, 1, 2]), 'closing': closing,
                 'include': rng.random() < 0.5, 'inner': inner}
